@@ -272,13 +272,15 @@ func init() {
 			if c.Part == 0 && assigned {
 				type fk struct {
 					name, want string
-					prep      func()
+					prep       func()
 				}
 				kinds := []fk{
 					{"status-503", "503", func() { serve = func(req *http.Request) rig.Answer { return rig.Answer{Status: 503} } }},
 					{"status-404", "404", func() { serve = func(req *http.Request) rig.Answer { return rig.Answer{Status: 404} } }},
 					{"transport-error", "connection refused (scripted)", func() {
-						serve = func(req *http.Request) rig.Answer { return rig.Answer{Err: errors.New("connection refused (scripted)")} }
+						serve = func(req *http.Request) rig.Answer {
+							return rig.Answer{Err: errors.New("connection refused (scripted)")}
+						}
 					}},
 					{"stop-scrape", "quota exceeded", func() {
 						_ = sc.CM.UpdateExtraConfig(prom.ExtraConfig{StopScrapeReason: "quota exceeded"})
